@@ -7,7 +7,7 @@
    reference tree, which [decode] reads back.  This file holds statement pins,
    [exact] and Print Assumptions only. *)
 From Coq Require Import List.
-From LV Require Import Cst Tree ABuild Runtime Exec Refine.
+From LV Require Import Cst Tree ABuild Runtime Exec Refine ExecInv ParseEntry.
 Import ListNotations.
 
 Theorem C02_step_refines : forall c sn g o g',
@@ -37,6 +37,20 @@ Proof. exact close_root_refines. Qed.
 Theorem C02_decode_flatten : forall t, decode (flatten t) = Some t.
 Proof. exact decode_flatten. Qed.
 
+(* Execution level: every statement of the command language preserves the runtime invariant
+   (the concrete CstData is the layout of the reference builder state) as long as the ghost is
+   defined; the returned vector then decodes to a tree (all programs, inputs, oracles, fuels). *)
+Theorem C02_exec_well_formed : forall cx prog orc fuel r root msg st,
+  parse_entry cx prog orc fuel r root msg = XOk st ->
+  gh st <> None ->
+  exists t, nodes (cstd st) = flatten t /\ decode (nodes (cstd st)) = Some t.
+Proof.
+  intros cx prog orc fuel r root msg st H Hg.
+  destruct (parse_entry_tree cx prog orc fuel r root msg st H Hg) as (t & H1 & H2 & _).
+  exists t. split; assumption.
+Qed.
+
+Print Assumptions C02_exec_well_formed.
 Print Assumptions C02_step_refines.
 Print Assumptions C02_history_refines.
 Print Assumptions C02_init.
